@@ -207,6 +207,18 @@ def make_cases(ctx):
                                                "+".join(sm)), dict(
                         kind="pskpair", hash=h, cert=with_cert, cm=cm, sm=sm)
     for h in ("sha256", "sha384"):
+        for cert in (True, False):
+            yield "psk-%s-hrr-%d" % (h, cert), dict(
+                kind="pskpair", hash=h, cert=cert, hrr=True,
+                cm=["psk_dhe_ke", "psk_ke"], sm=["psk_dhe_ke", "psk_ke"])
+    # the fallback signal with every pair of maximum versions: refused
+    # exactly when the server could have done better
+    for cmax in pair.VERSIONS:
+        for smax in pair.VERSIONS:
+            yield "d-scsv-%d-%d" % (cmax[1], smax[1]), dict(
+                kind="dpair", side="scsv", dim="sendFallbackSCSV",
+                value=[cmax, smax], window=None)
+    for h in ("sha256", "sha384"):
         for lay in ("c_empty_first", "c_other_first", "c_other_last",
                     "c_three", "s_other_first", "both"):
             yield "psk-%s-%s" % (h, lay), dict(
@@ -654,6 +666,11 @@ def compatible(vc, vs, skey):
             return None, "maxVersion not in versions"
     if not common:
         return False, "no common version"
+    if getattr(vc, "sendFallbackSCSV", False) and nv is not None and \
+            nv < vs.maxVersion:
+        # RFC 7507: a client that says it fell back is refused by a server
+        # that could have done better
+        return False, "fallback SCSV below the server's best version"
     if vs.defaultCurve not in vs.eccCurves:
         return None, "server defaultCurve is not among its eccCurves"
     if nv is not None and nv < max(common) and \
@@ -677,6 +694,11 @@ def compatible(vc, vs, skey):
 def directed(P, rng):
     """settings of a directed pair -> (cd, cs, sd, ss, skey) or None"""
     dim, v = P["dim"], P["value"]
+    if dim == "sendFallbackSCSV":
+        cd = {"sendFallbackSCSV": True, "minVersion": (3, 0),
+              "maxVersion": tuple(v[0])}
+        sd = {"minVersion": (3, 0), "maxVersion": tuple(v[1])}
+        return cd, policy.build(cd), sd, policy.build(sd), "rsa"
     d = {dim: [v]}
     skey = "rsa"
     if dim.startswith("sigonly_"):
@@ -748,6 +770,10 @@ def run_pskpair(ctx, cid, P):
     elif lay == "both":
         cs.pskConfigs = [other, psk]
         ss.pskConfigs = [other384, psk]
+    if P.get("hrr"):
+        # no key share in the first ClientHello: HelloRetryRequest, and the
+        # binders of the second ClientHello cover the retry
+        cs.keyShares = []
     cs.psk_modes = list(P["cm"])
     ss.psk_modes = list(P["sm"])
     try:
